@@ -359,6 +359,16 @@ def targeted(w):
             yield MEM(OP('+', OP('+', ad, I(32, 4)), I(32, 0xfffffffc)), size)
             yield MEM(OP('-', ad, I(32, 0)), size)
             yield MEM(MEM(ad, 32), size)
+            # a segmented cell whose address (or an enclosing node) is rewritten must stay the same cell
+            for seg in (ID('fs', 16), ID('ds', 16)):
+                yield MEM(OP('+', ad, I(32, 0)), size, seg)
+                yield MEM(OP('+', OP('+', ad, I(32, 4)), I(32, 0xfffffffc)), size, seg)
+                yield MEM(MEM(OP('+', ad, I(32, 0)), 32, seg), size)
+                yield MEM(MEM(OP('+', ad, I(32, 0)), 32), size, seg)
+                if size == w:
+                    yield OP('^', MEM(OP('+', ad, I(32, 0)), size, seg), MEM(ad, size))
+                    yield OP('-', MEM(OP('+', ad, I(32, 0)), size, seg), MEM(ad, size, seg))
+                    yield COND(MEM(OP('+', ad, I(32, 0)), size, seg), MEM(ad, size), MEM(ad, size, seg))
             yield CO((SL(mm, 0, 8), 0, 8), (SL(mm, 8, size), 8, size)) if size > 8 else mm
     # parity shapes
     for x in A + [I(w, v) for v in cvals[:40]]:
